@@ -64,6 +64,37 @@ func (r *byteReader) ReadByte() (byte, error) {
 	return 0, io.ErrNoProgress
 }
 
+// ExactLimitReader returns a Reader that reads exactly n bytes from r:
+// it reports io.EOF after n bytes and io.ErrUnexpectedEOF when r ends earlier.
+func ExactLimitReader(r io.Reader, n int64) io.Reader {
+	return &exactLimitReader{reader: r, remain: n}
+}
+
+type exactLimitReader struct {
+	reader io.Reader
+	remain int64
+}
+
+func (l *exactLimitReader) Read(p []byte) (n int, err error) {
+	if l.remain <= 0 {
+		return 0, io.EOF
+	}
+	if int64(len(p)) > l.remain {
+		p = p[:l.remain]
+	}
+	n, err = l.reader.Read(p)
+	l.remain -= int64(n)
+	if io.EOF == err {
+		if l.remain > 0 {
+			// the source ended inside the frame
+			err = io.ErrUnexpectedEOF
+		} else {
+			err = nil
+		}
+	}
+	return
+}
+
 // ToReader wrap message to io.Reader
 func ToReader(message interface{}) (io.Reader, error) {
 
